@@ -9,7 +9,9 @@ use std::pin::Pin;
 use std::sync::{Arc, Mutex};
 use std::task::{Context, Poll};
 use tonic::codec::{Codec, CompressionEncoding, DecodeBuf, Decoder, EncodeBuf, Encoder};
-use tonic::metadata::{Ascii, Binary, KeyAndValueRef, MetadataKey, MetadataMap, MetadataValue};
+use tonic::metadata::{
+    Ascii, Binary, Entry, KeyAndMutValueRef, KeyAndValueRef, KeyRef, MetadataKey, MetadataMap, MetadataValue, ValueRef, ValueRefMut,
+};
 use tonic::{Code, Request, Response, Status};
 use vcommon::body::{spin, Ev, ScriptBody};
 use vcommon::*;
@@ -52,41 +54,152 @@ fn bin_val_tr(v: &MetadataValue<Binary>) -> Tr {
         Tr::bool(v.is_empty()),
     ])
 }
+/// true iff the static type of the value mentions the Binary encoding (the only way to see the
+/// `VE` of a MetadataKey<VE> / MetadataValue<VE> / OccupiedEntry<VE> at run time: the
+/// ValueEncoding trait is not nameable outside tonic)
+fn is_bin_ty<T: ?Sized>(_: &T) -> bool {
+    let n = std::any::type_name::<T>();
+    assert!(n.contains("Binary") != n.contains("Ascii"), "{}", n);
+    n.contains("Binary")
+}
+/// the `String` and `&String` key impls answer exactly like the `&str` impl
+fn string_kinds_agree(md: &MetadataMap, p: &str) -> bool {
+    let s: String = p.to_string();
+    let enc = |v: Option<&MetadataValue<Ascii>>| v.map(|v| v.as_encoded_bytes().to_vec());
+    let encb = |v: Option<&MetadataValue<Binary>>| v.map(|v| v.as_encoded_bytes().to_vec());
+    let mut ok = enc(md.get(p)) == enc(md.get(s.clone())) && enc(md.get(p)) == enc(md.get(&s));
+    ok &= encb(md.get_bin(p)) == encb(md.get_bin(s.clone())) && encb(md.get_bin(p)) == encb(md.get_bin(&s));
+    let all = |g: tonic::metadata::GetAll<'_, Ascii>| g.iter().map(|v| v.as_encoded_bytes().to_vec()).collect::<Vec<_>>();
+    let allb = |g: tonic::metadata::GetAll<'_, Binary>| g.iter().map(|v| v.as_encoded_bytes().to_vec()).collect::<Vec<_>>();
+    ok &= all(md.get_all(p)) == all(md.get_all(s.clone())) && all(md.get_all(p)) == all(md.get_all(&s));
+    ok &= allb(md.get_all_bin(p)) == allb(md.get_all_bin(s.clone())) && allb(md.get_all_bin(p)) == allb(md.get_all_bin(&s));
+    ok &= md.contains_key(p) == md.contains_key(s.clone()) && md.contains_key(p) == md.contains_key(&s);
+    let (mut m1, mut m2, mut m3) = (md.clone(), md.clone(), md.clone());
+    ok &= m1.get_mut(p).is_some() == m2.get_mut(s.clone()).is_some() && m1.get_mut(p).is_some() == m3.get_mut(&s).is_some();
+    ok &= m1.get_bin_mut(p).is_some() == m2.get_bin_mut(s.clone()).is_some() && m1.get_bin_mut(p).is_some() == m3.get_bin_mut(&s).is_some();
+    let st = |e: Result<Entry<'_, Ascii>, tonic::metadata::errors::InvalidMetadataKey>| match e {
+        Err(_) => (0, String::new()),
+        Ok(Entry::Vacant(v)) => (1, v.key().as_str().to_string()),
+        Ok(Entry::Occupied(o)) => (2, o.key().as_str().to_string()),
+    };
+    let stb = |e: Result<Entry<'_, Binary>, tonic::metadata::errors::InvalidMetadataKey>| match e {
+        Err(_) => (0, String::new()),
+        Ok(Entry::Vacant(v)) => (1, v.key().as_str().to_string()),
+        Ok(Entry::Occupied(o)) => (2, o.key().as_str().to_string()),
+    };
+    let e1 = st(m1.entry(p));
+    ok &= e1 == st(m2.entry(s.clone())) && e1 == st(m3.entry(&s));
+    let b1 = stb(m1.entry_bin(p));
+    ok &= b1 == stb(m2.entry_bin(s.clone())) && b1 == stb(m3.entry_bin(&s));
+    let r1 = enc(m1.remove(p).as_ref());
+    ok &= r1 == enc(m2.remove(s.clone()).as_ref()) && r1 == enc(m3.remove(&s).as_ref());
+    let (mut m1, mut m2, mut m3) = (md.clone(), md.clone(), md.clone());
+    let r1 = encb(m1.remove_bin(p).as_ref());
+    ok &= r1 == encb(m2.remove_bin(s.clone()).as_ref()) && r1 == encb(m3.remove_bin(&s).as_ref());
+    ok && m1.into_headers() == m2.into_headers()
+}
 fn probe_tr(md: &MetadataMap, p: &str) -> Tr {
+    let mut m = md.clone();
+    let gm = m.get_mut(p).map(|v| Tr::b(v.as_encoded_bytes()));
+    let gbm = m.get_bin_mut(p).map(|v| bin_val_tr(v));
     Tr::L(vec![
         Tr::opt(md.get(p).map(|v| Tr::b(v.as_encoded_bytes()))),
         Tr::opt(md.get_bin(p).map(bin_val_tr)),
         Tr::L(md.get_all(p).iter().map(|v| Tr::b(v.as_encoded_bytes())).collect()),
         Tr::L(md.get_all_bin(p).iter().map(bin_val_tr).collect()),
         Tr::bool(md.contains_key(p)),
+        Tr::opt(gm),
+        Tr::opt(gbm),
+        Tr::bool(string_kinds_agree(md, p)),
     ])
 }
-fn iter_split(md: &MetadataMap) -> (HeaderMap, HeaderMap) {
+fn split_pairs(items: Vec<(bool, String, Vec<u8>)>) -> (HeaderMap, HeaderMap) {
     let (mut a, mut b) = (HeaderMap::new(), HeaderMap::new());
-    for kv in md.iter() {
-        match kv {
-            KeyAndValueRef::Ascii(k, v) => {
-                a.append(
-                    HeaderName::from_bytes(k.as_str().as_bytes()).unwrap(),
-                    HeaderValue::from_bytes(v.as_encoded_bytes()).unwrap(),
-                );
-            }
-            KeyAndValueRef::Binary(k, v) => {
-                b.append(
-                    HeaderName::from_bytes(k.as_str().as_bytes()).unwrap(),
-                    HeaderValue::from_bytes(v.as_encoded_bytes()).unwrap(),
-                );
-            }
+    for (bin, k, v) in items {
+        let (k, v) = (HeaderName::from_bytes(k.as_bytes()).unwrap(), HeaderValue::from_bytes(&v).unwrap());
+        if bin {
+            b.append(k, v);
+        } else {
+            a.append(k, v);
         }
     }
     (a, b)
 }
+fn iter_split(md: &MetadataMap) -> (HeaderMap, HeaderMap) {
+    split_pairs(
+        md.iter()
+            .map(|kv| match kv {
+                KeyAndValueRef::Ascii(k, v) => (is_bin_ty(k) || is_bin_ty(v), k.as_str().to_string(), v.as_encoded_bytes().to_vec()),
+                KeyAndValueRef::Binary(k, v) => (is_bin_ty(k) && is_bin_ty(v), k.as_str().to_string(), v.as_encoded_bytes().to_vec()),
+            })
+            .collect(),
+    )
+}
+fn iter_mut_split(md: &MetadataMap) -> (HeaderMap, HeaderMap) {
+    let mut m = md.clone();
+    split_pairs(
+        m.iter_mut()
+            .map(|kv| match kv {
+                KeyAndMutValueRef::Ascii(k, v) => (false, k.as_str().to_string(), v.as_encoded_bytes().to_vec()),
+                KeyAndMutValueRef::Binary(k, v) => (true, k.as_str().to_string(), v.as_encoded_bytes().to_vec()),
+            })
+            .collect(),
+    )
+}
+/// (ASCII-tagged items, binary-tagged items), each sorted
+type Tagged = (Vec<Vec<u8>>, Vec<Vec<u8>>);
+fn tagged(items: Vec<(bool, Vec<u8>)>) -> Tagged {
+    let mut a: Vec<Vec<u8>> = items.iter().filter(|x| !x.0).map(|x| x.1.clone()).collect();
+    let mut b: Vec<Vec<u8>> = items.iter().filter(|x| x.0).map(|x| x.1.clone()).collect();
+    a.sort();
+    b.sort();
+    (a, b)
+}
+fn tagged_tr(t: &Tagged) -> Tr {
+    Tr::L(vec![Tr::L(t.0.iter().map(|x| Tr::b(x)).collect()), Tr::L(t.1.iter().map(|x| Tr::b(x)).collect())])
+}
+fn keys_tagged(md: &MetadataMap) -> Tagged {
+    tagged(
+        md.keys()
+            .map(|k| match k {
+                KeyRef::Ascii(k) => (false, k.as_str().as_bytes().to_vec()),
+                KeyRef::Binary(k) => (true, k.as_str().as_bytes().to_vec()),
+            })
+            .collect(),
+    )
+}
+fn values_tagged(md: &MetadataMap) -> Tagged {
+    tagged(
+        md.values()
+            .map(|v| match v {
+                ValueRef::Ascii(v) => (false, v.as_encoded_bytes().to_vec()),
+                ValueRef::Binary(v) => (true, v.as_encoded_bytes().to_vec()),
+            })
+            .collect(),
+    )
+}
+fn values_mut_tagged(md: &MetadataMap) -> Tagged {
+    let mut m = md.clone();
+    tagged(
+        m.values_mut()
+            .map(|v| match v {
+                ValueRefMut::Ascii(v) => (false, v.as_encoded_bytes().to_vec()),
+                ValueRefMut::Binary(v) => (true, v.as_encoded_bytes().to_vec()),
+            })
+            .collect(),
+    )
+}
 fn read_tr(h: &HeaderMap, probes: &[String]) -> Tr {
     let md = MetadataMap::from_headers(h.clone());
     let (a, b) = iter_split(&md);
+    let (am, bm) = iter_mut_split(&md);
     Tr::L(vec![
         hm_tr(&md.clone().into_headers()),
         Tr::L(vec![hm_tr(&a), hm_tr(&b)]),
+        Tr::L(vec![hm_tr(&am), hm_tr(&bm)]),
+        tagged_tr(&keys_tagged(&md)),
+        tagged_tr(&values_tagged(&md)),
+        tagged_tr(&values_mut_tagged(&md)),
         Tr::L(probes.iter().map(|p| probe_tr(&md, p)).collect()),
     ])
 }
@@ -112,27 +225,87 @@ fn oracle_typed(h: &HeaderMap) -> Option<String> {
     if a.len() + b.len() != h.len() {
         return Some(format!("iter yields {} entries of {}", a.len() + b.len(), h.len()));
     }
+    if iter_mut_split(&md) != (a.clone(), b.clone()) {
+        return Some("iter_mut does not present the entries like iter".to_string());
+    }
+    // keys: every name once, typed by its suffix
+    let mut want_k: Tagged = (vec![], vec![]);
+    let mut want_v: Tagged = (vec![], vec![]);
+    for k in h.keys() {
+        let bin = k.as_str().ends_with("-bin");
+        let slot_k = if bin { &mut want_k.1 } else { &mut want_k.0 };
+        slot_k.push(k.as_str().as_bytes().to_vec());
+        let slot_v = if bin { &mut want_v.1 } else { &mut want_v.0 };
+        for v in h.get_all(k) {
+            slot_v.push(v.as_bytes().to_vec());
+        }
+    }
+    want_k.0.sort();
+    want_k.1.sort();
+    want_v.0.sort();
+    want_v.1.sort();
+    if keys_tagged(&md) != want_k {
+        return Some("keys() does not yield every name once with the type of its suffix".to_string());
+    }
+    if values_tagged(&md) != want_v {
+        return Some("values() does not yield every value once with the type of its name's suffix".to_string());
+    }
+    if values_mut_tagged(&md) != want_v {
+        return Some("values_mut() does not yield every value once with the type of its name's suffix".to_string());
+    }
     for k in h.keys() {
         let ks = k.as_str();
         let bin = ks.ends_with("-bin");
         let all: Vec<&[u8]> = h.get_all(k).iter().map(|v| v.as_bytes()).collect();
         let ia: Vec<&[u8]> = a.get_all(k).iter().map(|v| v.as_bytes()).collect();
         let ib: Vec<&[u8]> = b.get_all(k).iter().map(|v| v.as_bytes()).collect();
+        let mut m = md.clone();
+        if !string_kinds_agree(&md, ks) || !string_kinds_agree(&md, &ks.to_ascii_uppercase()) {
+            return Some(format!("String / &String keys do not behave like &str for {}", ks));
+        }
         if bin {
-            if md.get(ks).is_some() || md.get_all(ks).iter().next().is_some() || !ia.is_empty() {
+            if md.get(ks).is_some() || md.get_all(ks).iter().next().is_some() || !ia.is_empty() || m.get_mut(ks).is_some() {
                 return Some(format!("binary entry presented as ASCII: {}", ks));
+            }
+            if m.entry(ks).is_ok() || m.entry(ks.to_ascii_uppercase()).is_ok() {
+                return Some(format!("ASCII entry handle on the binary name {}", ks));
             }
             let got: Vec<&[u8]> = md.get_all_bin(ks).iter().map(|v| v.as_encoded_bytes()).collect();
             if got != all || ib != all || md.get_bin(ks).map(|v| v.as_encoded_bytes()) != all.first().copied() {
                 return Some(format!("binary accessors do not return the entries of {}", ks));
             }
+            if m.get_bin_mut(ks).map(|v| v.as_encoded_bytes().to_vec()) != all.first().map(|v| v.to_vec()) {
+                return Some(format!("get_bin_mut does not return the first entry of {}", ks));
+            }
+            match m.entry_bin(ks) {
+                Ok(Entry::Occupied(o)) if is_bin_ty(&o) && is_bin_ty(o.key()) && is_bin_ty(o.get()) => {
+                    if o.iter().map(|v| v.as_encoded_bytes()).collect::<Vec<_>>() != all {
+                        return Some(format!("entry_bin handle does not show the entries of {}", ks));
+                    }
+                }
+                _ => return Some(format!("entry_bin does not give a binary occupied handle on {}", ks)),
+            }
         } else {
-            if md.get_bin(ks).is_some() || md.get_all_bin(ks).iter().next().is_some() || !ib.is_empty() {
+            if md.get_bin(ks).is_some() || md.get_all_bin(ks).iter().next().is_some() || !ib.is_empty() || m.get_bin_mut(ks).is_some() {
                 return Some(format!("ASCII entry presented as binary: {}", ks));
+            }
+            if m.entry_bin(ks).is_ok() {
+                return Some(format!("binary entry handle on the ASCII name {}", ks));
             }
             let got: Vec<&[u8]> = md.get_all(ks).iter().map(|v| v.as_encoded_bytes()).collect();
             if got != all || ia != all || md.get(ks).map(|v| v.as_encoded_bytes()) != all.first().copied() {
                 return Some(format!("ASCII accessors do not return the entries of {}", ks));
+            }
+            if m.get_mut(ks).map(|v| v.as_encoded_bytes().to_vec()) != all.first().map(|v| v.to_vec()) {
+                return Some(format!("get_mut does not return the first entry of {}", ks));
+            }
+            match m.entry(ks) {
+                Ok(Entry::Occupied(o)) if !is_bin_ty(&o) && !is_bin_ty(o.key()) && !is_bin_ty(o.get()) => {
+                    if o.iter().map(|v| v.as_encoded_bytes()).collect::<Vec<_>>() != all {
+                        return Some(format!("entry handle does not show the entries of {}", ks));
+                    }
+                }
+                _ => return Some(format!("entry does not give an ASCII occupied handle on {}", ks)),
             }
         }
     }
@@ -140,12 +313,23 @@ fn oracle_typed(h: &HeaderMap) -> Option<String> {
 }
 /// `sent` = the user's metadata, `recv` = what the peer got, `own` = the headers tonic writes
 /// itself on this path (name -> exact values); `raw` = the bytes behind the binary values
-fn oracle_wire(sent: &HeaderMap, recv: &HeaderMap, own: &[(&str, Vec<Vec<u8>>)], raw: &RawBin) -> Option<String> {
+/// `excl` = the non-reserved protocol names whose user entries the theorem of this path does
+/// not cover (exactly its premises: c08_md_wire_roundtrip_{client,server,status}); for those the
+/// oracle checks instead that the wire carries tonic's own value (`own`).
+fn oracle_wire(sent: &HeaderMap, recv: &HeaderMap, own: &[(&str, Vec<Vec<u8>>)], excl: &[&str], raw: &RawBin) -> Option<String> {
     let own_of = |k: &str| own.iter().find(|(n, _)| *n == k).map(|(_, v)| v.clone());
+    for e in excl {
+        if is_reserved(e) || own_of(e).is_none() {
+            return Some(format!("harness: excluded name {} is not a protocol header tonic writes here", e));
+        }
+    }
     for k in sent.keys() {
         let ks = k.as_str();
-        if is_reserved(ks) || own_of(ks).is_some() {
+        if is_reserved(ks) || excl.contains(&ks) {
             continue;
+        }
+        if own_of(ks).is_some() {
+            return Some(format!("user metadata {} is overwritten by a protocol header outside the stated premises", ks));
         }
         let a: Vec<&[u8]> = sent.get_all(k).iter().map(|v| v.as_bytes()).collect();
         let c: Vec<&[u8]> = recv.get_all(k).iter().map(|v| v.as_bytes()).collect();
@@ -472,7 +656,10 @@ fn case_client(out: &mut Out, r: &mut Rng, ops: &[Op], compress: bool, streaming
                 own.push(("grpc-encoding", vec![b"gzip".to_vec()]));
                 own.push(("grpc-accept-encoding", vec![b"gzip,identity".to_vec()]));
             }
-            (read_tr(h, &probes), oracle_wire(&sent, h, &own, &raw))
+            {
+                let excl: &[&str] = if compress { &["grpc-encoding", "grpc-accept-encoding"] } else { &[] };
+                (read_tr(h, &probes), oracle_wire(&sent, h, &own, excl, &raw))
+            }
         }
     };
     hist_md(out, "client", &sent, &raw);
@@ -605,6 +792,14 @@ fn own_status(code: u32, msg: &str, details: &[u8], trailers_only: bool) -> Vec<
     }
     own
 }
+/// premise of c08_md_wire_roundtrip_status: grpc-status-details-bin is tonic's when the status has details
+fn excl_status(details: &[u8]) -> &'static [&'static str] {
+    if details.is_empty() {
+        &[]
+    } else {
+        &["grpc-status-details-bin"]
+    }
+}
 /// request headers as a (possibly padding) peer sends them
 fn gen_peer_request(r: &mut Rng) -> (HeaderMap, RawBin) {
     let mut h = HeaderMap::new();
@@ -705,7 +900,8 @@ fn case_server(out: &mut Out, r: &mut Rng, ops: &[Op], reply: Reply, streaming: 
                         own.push(("grpc-encoding", vec![b"gzip".to_vec()]));
                     }
                     if why.is_none() {
-                        why = oracle_wire(&sent, &o.headers, &own, &raw);
+                        let excl: &[&str] = if compress { &["grpc-encoding"] } else { &[] };
+                        why = oracle_wire(&sent, &o.headers, &own, excl, &raw);
                     }
                     let ok_trailers = o.trailers.clone().unwrap_or_default();
                     if why.is_none() && (ok_trailers.len() != 1 || ok_trailers.get("grpc-status").map(|v| v.as_bytes()) != Some(b"0")) {
@@ -732,7 +928,7 @@ fn case_server(out: &mut Out, r: &mut Rng, ops: &[Op], reply: Reply, streaming: 
                         why = Some("no trailers".to_string());
                     }
                     if why.is_none() {
-                        why = oracle_wire(&sent, &t, &own_status(code, &msg, &details, false), &raw);
+                        why = oracle_wire(&sent, &t, &own_status(code, &msg, &details, false), excl_status(&details), &raw);
                     }
                     model = format!(
                         "Nd [{}; obs_server_headers {} [] []; obs_trailers {} {}]",
@@ -744,7 +940,7 @@ fn case_server(out: &mut Out, r: &mut Rng, ops: &[Op], reply: Reply, streaming: 
                     kind = "server.trailers_only";
                     let probes = gen_probes(r, &o.headers, 3);
                     if why.is_none() {
-                        why = oracle_wire(&sent, &o.headers, &own_status(code, &msg, &details, true), &raw);
+                        why = oracle_wire(&sent, &o.headers, &own_status(code, &msg, &details, true), excl_status(&details), &raw);
                     }
                     if why.is_none() && (o.trailers.is_some() || !o.data.is_empty()) {
                         why = Some("trailers-only response has a body".to_string());
@@ -805,7 +1001,7 @@ fn case_add_header(out: &mut Out, r: &mut Rng, ops: &[Op], st: (u32, String, Vec
             }
             let extra_ref: Vec<(&str, Vec<Vec<u8>>)> = extra.iter().map(|(k, v)| (k.as_str(), v.clone())).collect();
             own.extend(extra_ref);
-            (Tr::L(vec![Tr::n(1u8), read_tr(&h, &probes)]), oracle_wire(&sent, &h, &own, &raw))
+            (Tr::L(vec![Tr::n(1u8), read_tr(&h, &probes)]), oracle_wire(&sent, &h, &own, excl_status(&details), &raw))
         }
     };
     hist_md(out, "add_header", &sent, &raw);
@@ -978,6 +1174,347 @@ fn case_accessor(out: &mut Out, ops: &[Op], probes: Vec<String>, corpus: bool) {
     });
 }
 
+// ------------------------------------------------------------------ Entry API, writes through references
+#[derive(Clone, Debug)]
+struct EOp {
+    bin: bool,
+    key: String,
+    act: u8,
+    val: Vec<u8>,
+}
+macro_rules! val_tr {
+    ($flags:ident, $v:expr) => {{
+        let v = $v;
+        $flags.push(is_bin_ty(v));
+        Tr::L(vec![Tr::bool(is_bin_ty(v)), Tr::b(v.as_encoded_bytes()), Tr::opt(v.to_bytes().ok().map(|b| Tr::b(&b)))])
+    }};
+}
+macro_rules! key_tr {
+    ($flags:ident, $k:expr) => {{
+        let k = $k;
+        $flags.push(is_bin_ty(k));
+        Tr::L(vec![Tr::bool(is_bin_ty(k)), Tr::s(k.as_str())])
+    }};
+}
+macro_rules! occ_tr {
+    ($flags:ident, $o:expr) => {{
+        let o = $o;
+        $flags.push(is_bin_ty(o));
+        let g = val_tr!($flags, o.get());
+        let mut it = vec![];
+        for v in o.iter() {
+            it.push(val_tr!($flags, v));
+        }
+        Tr::L(vec![Tr::opt(Some(g)), Tr::L(it)])
+    }};
+}
+/// one use of the Entry API on `$md` through `$entry` (entry or entry_bin); every typed thing the
+/// API hands out pushes the encoding of its static type into `$flags`
+macro_rules! entry_op {
+    ($flags:ident, $entry:expr, $val:expr, $act:expr) => {{
+        match ($entry, $val) {
+            (Err(_), _) => Tr::L(vec![Tr::n(0u8)]),
+            (Ok(_), None) => Tr::L(vec![Tr::n(9u8)]),
+            (Ok(e), Some(v)) => {
+                if $act == 0 {
+                    let st: u8 = if matches!(e, Entry::Occupied(_)) { 2 } else { 1 };
+                    let k = key_tr!($flags, e.key());
+                    let r = e.or_insert(v);
+                    let rv = val_tr!($flags, &*r);
+                    Tr::L(vec![Tr::n(st), k, if st == 2 { Tr::opt(Some(rv)) } else { rv }])
+                } else {
+                    match e {
+                        Entry::Vacant(ve) => {
+                            let k = key_tr!($flags, ve.key());
+                            match $act {
+                                1 => {
+                                    let r = ve.insert(v);
+                                    Tr::L(vec![Tr::n(1u8), k, val_tr!($flags, &*r)])
+                                }
+                                2 => {
+                                    let o = ve.insert_entry(v);
+                                    Tr::L(vec![Tr::n(1u8), k, key_tr!($flags, o.key()), occ_tr!($flags, &o)])
+                                }
+                                3 => {
+                                    // the second value goes in with the handle's own value type, so that this
+                                    // compiles whatever encoding insert_entry's handle is declared with (F-C08b)
+                                    let mut o = ve.insert_entry(v);
+                                    let again = o.get().clone();
+                                    o.append(again);
+                                    Tr::L(vec![Tr::n(1u8), k, key_tr!($flags, o.key()), occ_tr!($flags, &o)])
+                                }
+                                _ => {
+                                    let key = ve.into_key();
+                                    Tr::L(vec![Tr::n(1u8), k, key_tr!($flags, &key)])
+                                }
+                            }
+                        }
+                        Entry::Occupied(mut o) => {
+                            let mut head = vec![Tr::n(2u8), key_tr!($flags, o.key()), occ_tr!($flags, &o)];
+                            match $act {
+                                1 => {
+                                    let old = o.insert(v);
+                                    head.push(Tr::opt(Some(val_tr!($flags, &old))));
+                                }
+                                2 => {
+                                    o.append(v);
+                                    head.push(occ_tr!($flags, &o));
+                                }
+                                3 => {
+                                    let old = o.remove();
+                                    head.push(Tr::opt(Some(val_tr!($flags, &old))));
+                                }
+                                4 => {
+                                    let olds: Vec<_> = o.insert_mult(v).collect();
+                                    let mut l = vec![];
+                                    for x in &olds {
+                                        l.push(val_tr!($flags, x));
+                                    }
+                                    head.push(Tr::L(l));
+                                }
+                                5 => {
+                                    let (k2, drain) = o.remove_entry_mult();
+                                    let olds: Vec<_> = drain.collect();
+                                    head.push(key_tr!($flags, &k2));
+                                    let mut l = vec![];
+                                    for x in &olds {
+                                        l.push(val_tr!($flags, x));
+                                    }
+                                    head.push(Tr::L(l));
+                                }
+                                6 => {
+                                    *o.get_mut() = v;
+                                }
+                                _ => {
+                                    for x in o.iter_mut() {
+                                        *x = v.clone();
+                                    }
+                                }
+                            }
+                            Tr::L(head)
+                        }
+                    }
+                }
+            }
+        }
+    }};
+}
+fn coq_eops(e: &[EOp]) -> String {
+    coq_list(e, |o| format!("({},({},({},{})))", coq_bool(o.bin), coq_bytes(o.key.as_bytes()), o.act, coq_bytes(&o.val)))
+}
+fn case_entry(out: &mut Out, ops: &[Op], eops: &[EOp], corpus: bool) {
+    let res = catch(std::panic::AssertUnwindSafe(|| {
+        let (mut md, _) = apply_ops(ops);
+        let mut trs = vec![];
+        let mut why: Option<String> = None;
+        let mut panicked = false;
+        for (i, e) in eops.iter().enumerate() {
+            let mut flags: Vec<bool> = vec![];
+            let name_is_bin = e.key.to_ascii_lowercase().ends_with("-bin");
+            let key_kind = i % 3; // &str, String, &String in turn
+            let ks: String = e.key.clone();
+            let before = md.clone().into_headers();
+            let t = catch(std::panic::AssertUnwindSafe(|| if e.bin {
+                let v = Some(MetadataValue::<Binary>::from_bytes(&e.val));
+                match key_kind {
+                    0 => entry_op!(flags, md.entry_bin(e.key.as_str()), v, e.act),
+                    1 => entry_op!(flags, md.entry_bin(ks), v, e.act),
+                    _ => entry_op!(flags, md.entry_bin(&ks), v, e.act),
+                }
+            } else {
+                let v = MetadataValue::<Ascii>::try_from(&e.val[..]).ok();
+                match key_kind {
+                    0 => entry_op!(flags, md.entry(e.key.as_str()), v, e.act),
+                    1 => entry_op!(flags, md.entry(ks), v, e.act),
+                    _ => entry_op!(flags, md.entry(&ks), v, e.act),
+                }
+            }));
+            let t = match t {
+                Ok(t) => t,
+                Err(p) => {
+                    // crate http 1.5.0: OccupiedEntry::insert_mult on a name with >= 3 values panics
+                    // (modelled: occ_insert_mult = Panic, c08_insert_mult); anything else is a failure
+                    let n = HeaderName::from_bytes(e.key.as_bytes()).ok().map(|n| before.get_all(n).iter().count()).unwrap_or(0);
+                    if !(e.act == 4 && n >= 3) && why.is_none() {
+                        why = Some(format!("panic in the Entry API: {}", p));
+                    }
+                    panicked = true;
+                    trs.push(Tr::L(vec![Tr::n(98u8)]));
+                    break;
+                }
+            };
+            // strict typing oracle: a handle exists only on a name of its own kind, and every key /
+            // value / handle it gives out is statically typed with that kind
+            let got_handle = t != Tr::L(vec![Tr::n(0u8)]);
+            if got_handle && name_is_bin != e.bin && why.is_none() {
+                why = Some(format!("{} handle on the {} name {:?}", if e.bin { "binary" } else { "ASCII" }, if name_is_bin { "binary" } else { "ASCII" }, e.key));
+            }
+            if let Some(f) = flags.iter().find(|f| **f != name_is_bin) {
+                if why.is_none() {
+                    why = Some(format!(
+                        "the Entry API presents a {} entry as {} (key {:?}, action {})",
+                        if name_is_bin { "binary" } else { "ASCII" }, if *f { "binary" } else { "ASCII" }, e.key, e.act
+                    ));
+                }
+            }
+            // names other than the handle's are untouched
+            let after = md.clone().into_headers();
+            for k in before.keys() {
+                if k.as_str() != e.key.to_ascii_lowercase() && before.get_all(k).iter().collect::<Vec<_>>() != after.get_all(k).iter().collect::<Vec<_>>() && why.is_none() {
+                    why = Some(format!("entry operation on {:?} changed {}", e.key, k));
+                }
+            }
+            // a binary value stored through a handle reads back as the bytes that were stored
+            let status = match &t {
+                Tr::L(l) => match l.first() {
+                    Some(Tr::N(n)) => *n,
+                    _ => 0,
+                },
+                _ => 0,
+            };
+            let stores = (status == 1 && e.act <= 3) || (status == 2 && matches!(e.act, 1 | 2 | 4 | 6 | 7));
+            if e.bin && stores && name_is_bin {
+                let back: Vec<Option<Vec<u8>>> = md.get_all_bin(e.key.as_str()).iter().map(|v| v.to_bytes().ok().map(|b| b.to_vec())).collect();
+                if !back.contains(&Some(e.val.clone())) && why.is_none() {
+                    why = Some(format!("bytes stored through an entry_bin handle on {:?} do not read back", e.key));
+                }
+            }
+            trs.push(t);
+        }
+        if panicked {
+            // the map is in an unspecified state after a panic inside http: not looked at
+            return (Tr::L(vec![Tr::L(trs), Tr::L(vec![])]), why, true);
+        }
+        let h = md.clone().into_headers();
+        if why.is_none() {
+            why = oracle_typed(&h);
+        }
+        let (a, b) = iter_split(&md);
+        (Tr::L(vec![Tr::L(trs), Tr::L(vec![hm_tr(&h), Tr::L(vec![hm_tr(&a), hm_tr(&b)])])]), why, false)
+    }));
+    let (obs, oracle, panicked) = match res {
+        Ok(x) => x,
+        Err(p) => (Tr::L(vec![Tr::n(99u8)]), Some(format!("panic: {}", p)), false),
+    };
+    out.hist("entry.insert_mult_panic_in_http", panicked);
+    for e in eops {
+        out.hist("entry.action", format!("{}{}", if e.bin { "entry_bin/" } else { "entry/" }, e.act));
+    }
+    out.push(Case {
+        kind: if corpus { "corpus.entry".into() } else { "entry".into() },
+        input: json!({"ops": ops_json(ops), "eops": eops.iter().map(|e| json!([e.bin, hex(e.key.as_bytes()), e.act, hex(&e.val)])).collect::<Vec<_>>()}),
+        model: format!("obs_entry {} {}", coq_ops(ops), coq_eops(eops)),
+        impl_obs: obs,
+        oracle,
+        nontrivial: !eops.is_empty(),
+    });
+}
+fn gen_eops(r: &mut Rng, ops: &[Op]) -> Vec<EOp> {
+    let n = r.range(1, 4);
+    (0..n)
+        .map(|_| {
+            let bin = r.chance(1, 2);
+            let key: String = match r.below(12) {
+                0 => (*r.pick(&["", "x a", "x\u{e9}-bin"])).to_string(),
+                1 => (*r.pick(if bin { ASCII_KEYS } else { BIN_KEYS })).to_string(),
+                2..=6 if !ops.is_empty() => {
+                    let k = r.pick(ops).key.clone();
+                    if r.chance(1, 3) {
+                        flip_case(r, &k)
+                    } else {
+                        k
+                    }
+                }
+                _ => (*r.pick(if bin { BIN_KEYS } else { ASCII_KEYS })).to_string(),
+            };
+            let val = if bin {
+                gen_bin_value(r)
+            } else {
+                let n = r.range(0, 6) as usize;
+                (0..n).map(|_| r.range(0x21, 0x7e) as u8).collect()
+            };
+            EOp { bin, key, act: r.below(8) as u8, val }
+        })
+        .collect()
+}
+fn case_mutate(out: &mut Out, ops: &[Op], probe: &str, va: &[u8], vb: &[u8]) {
+    let res = catch(std::panic::AssertUnwindSafe(|| {
+        let (md, _) = apply_ops(ops);
+        let a = MetadataValue::<Ascii>::try_from(va).unwrap();
+        let b = MetadataValue::<Binary>::from_bytes(vb);
+        let (mut m1, mut m2, mut m3, mut m4) = (md.clone(), md.clone(), md.clone(), md.clone());
+        let g = m1.get_mut(probe).map(|v| Tr::b(v.as_encoded_bytes()));
+        if let Some(v) = m1.get_mut(probe) {
+            *v = a.clone();
+        }
+        let gb = m2.get_bin_mut(probe).map(|v| bin_val_tr(v));
+        if let Some(v) = m2.get_bin_mut(probe) {
+            *v = b.clone();
+        }
+        let bang = |v: &[u8]| {
+            let mut x = v.to_vec();
+            x.push(b'!');
+            MetadataValue::<Ascii>::try_from(&x[..]).unwrap()
+        };
+        for v in m3.values_mut() {
+            match v {
+                ValueRefMut::Ascii(v) => *v = bang(v.as_encoded_bytes()),
+                ValueRefMut::Binary(v) => *v = MetadataValue::from_bytes(&[1]),
+            }
+        }
+        for kv in m4.iter_mut() {
+            match kv {
+                KeyAndMutValueRef::Ascii(_, v) => *v = bang(v.as_encoded_bytes()),
+                KeyAndMutValueRef::Binary(_, v) => *v = MetadataValue::from_bytes(&[1]),
+            }
+        }
+        // direct oracle: after the pass every -bin entry is the marker, every other one got a '!'
+        let h0 = md.clone().into_headers();
+        let mut why = None;
+        for (name, m) in [("values_mut", &m3), ("iter_mut", &m4)] {
+            let h = m.clone().into_headers();
+            for k in h0.keys() {
+                let want: Vec<Vec<u8>> = h0
+                    .get_all(k)
+                    .iter()
+                    .map(|v| if k.as_str().ends_with("-bin") { b"AQ".to_vec() } else { [v.as_bytes(), b"!"].concat() })
+                    .collect();
+                let got: Vec<Vec<u8>> = h.get_all(k).iter().map(|v| v.as_bytes().to_vec()).collect();
+                if got != want {
+                    why = Some(format!("{} handed out the entries of {} with the wrong type", name, k));
+                }
+            }
+        }
+        let pbin = probe.to_ascii_lowercase().ends_with("-bin");
+        if (pbin && g.is_some()) || (!pbin && gb.is_some()) {
+            why = Some(format!("get_mut / get_bin_mut presents an entry of the other kind for {:?}", probe));
+        }
+        (
+            Tr::L(vec![
+                Tr::opt(g),
+                Tr::opt(gb),
+                hm_tr(&m1.into_headers()),
+                hm_tr(&m2.into_headers()),
+                hm_tr(&m3.into_headers()),
+                hm_tr(&m4.into_headers()),
+            ]),
+            why,
+        )
+    }));
+    let (obs, oracle) = match res {
+        Ok(x) => x,
+        Err(p) => (Tr::L(vec![Tr::n(99u8)]), Some(format!("panic: {}", p))),
+    };
+    out.push(Case {
+        kind: "mutate".into(),
+        input: json!({"ops": ops_json(ops), "probe": probe, "ascii": hex(va), "bin": hex(vb)}),
+        model: format!("obs_mutate {} {} {} {}", coq_ops(ops), coq_bytes(probe.as_bytes()), coq_bytes(va), coq_bytes(vb)),
+        impl_obs: obs,
+        oracle,
+        nontrivial: !ops.is_empty(),
+    });
+}
+
 fn op(t: u8, k: &str, v: &[u8]) -> Op {
     Op { t, key: k.to_string(), val: v.to_vec() }
 }
@@ -997,6 +1534,23 @@ fn main() {
     );
     case_accessor(&mut out, &[op(3, "-bin", b"\x00"), op(1, "bin", b"x"), op(4, "-BIN", b""), op(5, "-BIN", b"")],
         ["-bin", "-BIN", "bin", "BIN"].iter().map(|s| s.to_string()).collect(), true);
+    // F-C08b: entry_bin on a vacant name -> insert_entry -> the handle must be a binary handle:
+    // its key and get() are typed Binary and get().to_bytes() gives back the stored bytes
+    let eb = |act: u8| EOp { bin: true, key: "x-data-bin".into(), act, val: b"hello".to_vec() };
+    case_entry(&mut out, &[], &[eb(2)], true);
+    case_entry(&mut out, &[], &[eb(3)], true);
+    case_entry(&mut out, &[op(1, "x-a", b"v")], &[eb(2), eb(2), eb(4), EOp { bin: false, key: "X-DATA-BIN".into(), act: 1, val: b"ascii".to_vec() }], true);
+    for act in 0..8u8 {
+        let ea = EOp { bin: false, key: "X-A".into(), act, val: b"new".to_vec() };
+        case_entry(&mut out, &[op(1, "x-a", b"1"), op(1, "x-a", b"2"), op(3, "x-p-bin", b"\x00\x01")], &[ea.clone()], true);
+        case_entry(&mut out, &[op(1, "x-a", b"1"), op(1, "x-a", b"2"), op(3, "x-p-bin", b"\x00\x01")], &[EOp { bin: true, key: "x-p-BIN".into(), act, val: vec![9, 8, 7, 6] }], true);
+        case_entry(&mut out, &[], &[ea, eb(act)], true);
+    }
+    // crate http 1.5.0: insert_mult on a name with three values panics (modelled as Panic)
+    for n in 1..=4usize {
+        let o: Vec<Op> = (0..n).map(|i| op(1, "x-a", &[b'1' + i as u8])).collect();
+        case_entry(&mut out, &o, &[EOp { bin: false, key: "x-a".into(), act: 4, val: b"z".to_vec() }, EOp { bin: false, key: "x-a".into(), act: 2, val: b"y".to_vec() }], true);
+    }
     let mut forged: Vec<Op> = RESERVED.iter().map(|k| op(1, k, b"forged")).collect();
     forged.push(op(1, "x-a", b"1"));
     forged.push(op(3, "x-p-bin", b"\x00\xff\x07"));
@@ -1058,6 +1612,19 @@ fn main() {
         let probes = gen_probes(&mut r, &md.into_headers(), 4);
         case_accessor(&mut out, &ops, probes, false);
     }
+    for _ in 0..n {
+        let ops = gen_ops(&mut r, true);
+        let eops = gen_eops(&mut r, &ops);
+        case_entry(&mut out, &ops, &eops, false);
+    }
+    for _ in 0..n / 2 {
+        let ops = gen_ops(&mut r, true);
+        let (md, _) = apply_ops(&ops);
+        let probe = gen_probes(&mut r, &md.into_headers(), 1).remove(0);
+        let va: Vec<u8> = (0..r.range(0, 5)).map(|_| r.range(0x21, 0x7e) as u8).collect();
+        let vb = gen_bin_value(&mut r);
+        case_mutate(&mut out, &ops, &probe, &va, &vb);
+    }
     for _ in 0..n / 2 {
         let b = gen_bin_value(&mut r);
         case_bin_value(&mut out, &b, false);
@@ -1089,7 +1656,7 @@ fn main() {
 
     out.finish(
         IMPORTS,
-        "client / server.response / server.trailers / server.trailers_only / add_header: random MetadataMaps built through the public API (keys +-bin in any case, visible-ASCII, space/tab and obs-text values, binary values of every length mod 3, repeated keys, the six reserved names and grpc-encoding / grpc-status-details-bin anywhere) sent through the real client::Grpc (capturing transport), server::Grpc unary / server-streaming handlers (Response metadata, error status in trailers, trailers-only) and Status::add_header, with and without compression configured; the peer's request reaches the handler with padded and unpadded binary values; non-trivial = non-empty metadata. accessor: maps built by insert/append/remove(+_bin) and read with string keys of any case. bin_value / bin_text: byte strings and arbitrary base64 texts. key / ascii_value: validation. Distinct = distinct (kind, model expression).",
+        "client / server.response / server.trailers / server.trailers_only / add_header: random MetadataMaps built through the public API (keys +-bin in any case, visible-ASCII, space/tab and obs-text values, binary values of every length mod 3, repeated keys, the six reserved names and grpc-encoding / grpc-status-details-bin anywhere) sent through the real client::Grpc (capturing transport), server::Grpc unary / server-streaming handlers (Response metadata, error status in trailers, trailers-only) and Status::add_header, with and without compression configured; the peer's request reaches the handler with padded and unpadded binary values; non-trivial = non-empty metadata. accessor: maps built by insert/append/remove(+_bin) and read with string keys of any case (&str, String and &String). Every received map is also read through iter, iter_mut, keys, values, values_mut, get_mut, get_bin_mut and entry / entry_bin. entry: the Entry API (or_insert, VacantEntry insert / insert_entry / into_key, OccupiedEntry get / iter / insert / insert_mult / append / remove / remove_entry_mult / get_mut / iter_mut) with keys of any case and of the wrong kind, the static encoding of every key / value / handle it hands out is observed. mutate: writes through get_mut / get_bin_mut / values_mut / iter_mut. bin_value / bin_text: byte strings and arbitrary base64 texts. key / ascii_value: validation. Distinct = distinct (kind, model expression).",
         json!({}),
     );
 }
